@@ -27,6 +27,13 @@ struct vf_ghost {
   struct AsyncStackRoot* local_root;   /* resumeCoroutineWithNewAsyncStackRoot: the function's local ScopedAsyncStackRoot */
   struct AsyncStackRoot* local_prev;   /* ... and the thread's current root when it was constructed */
   unsigned ctor, dtor, resumes;
+  /* call sites */
+  unsigned cs_top0;                    /* top_stores when the call-site function was entered */
+  struct AsyncStackRoot* cs_root;      /* the root the frame was active on when the call-site function was entered */
+  int resumer_id; unsigned resumers_made, resumer_destroys, suspend_calls; _Bool suspended;
+  _Bool cs_dead; struct AsyncStackFrame snap_f0; int snap_coro;   /* the frame / promise / awaiter may be gone: dead-object snapshot */
+  unsigned completions, starts, rf_ctor, rf_dtor, connects, runs; int last_sig;
+  struct AsyncStackFrame* arg_frame; struct AsyncStackFrame* arg_parent; instruction_ptr arg_ip;
 };
 static struct vf_ghost G;
 static void vf_guar(void* p, void* n);
@@ -57,7 +64,10 @@ static char vf_opaque_f, vf_opaque_r;
 #define IS_FRAME(p) ((p) == &F0 || (p) == &F1)
 #define IS_ROOT(p)  ((p) == &R0 || (p) == &R1)
 /* what checkAsyncStackFrameIsActive asserts */
-#define ACTIVE(f) ((f)->stackRoot != NULL && IS_ROOT((f)->stackRoot) && CUR.value == (f)->stackRoot && (f)->stackRoot->topFrame == (f))
+/* the top frame of a window root, by comparison with the concrete objects: a link that a replaced contract has havocked is
+ * compared, never dereferenced (SPEC_GUIDE performance pitfall 1) */
+#define TOP_OF(r) ((r) == &R0 ? R0.topFrame : (r) == &R1 ? R1.topFrame : OPQ_F)
+#define ACTIVE(f) ((f)->stackRoot != NULL && IS_ROOT((f)->stackRoot) && CUR.value == (f)->stackRoot && TOP_OF((f)->stackRoot) == (f))
 /* local shape invariant: a root's top frame points back at the root; a frame that points at a root is that root's top frame
  * (every other frame is detached) */
 #define TOP_OK(R) ((R).topFrame == NULL || (R).topFrame == OPQ_F || ((R).topFrame == &F0 ? F0.stackRoot == &(R) : ((R).topFrame == &F1 && F1.stackRoot == &(R))))
@@ -211,7 +221,7 @@ __CPROVER_ensures(ACTIVE(frame))
 /*@BODY check_active*/
 
 void activateAsyncStackFrame(struct AsyncStackRoot* root, struct AsyncStackFrame* frame)
-__CPROVER_requires(ACTIVATE_REQ(root, frame))
+__CPROVER_requires(ACTIVATE_REQ(root, frame)) /*P*/
 __CPROVER_assigns(root->topFrame, frame->stackRoot, G_PUB)
 __CPROVER_ensures(root->topFrame == frame && frame->stackRoot == root) /* exactly the two links change (everything else: frame condition) */
 __CPROVER_ensures(WF && ACTIVE(frame))
@@ -219,16 +229,16 @@ __CPROVER_ensures(G.top_stores == __CPROVER_old(G.top_stores) + 1 && G.pub_frame
 /*@BODY activate*/
 
 void deactivateAsyncStackFrame(struct AsyncStackFrame* frame)
-__CPROVER_requires(IS_FRAME(frame) && WF && ACTIVE(frame))
+__CPROVER_requires(IS_FRAME(frame) && WF && ACTIVE(frame)) /*P*/
 __CPROVER_assigns(frame->stackRoot, frame->stackRoot->topFrame, G_PUB)
 __CPROVER_ensures(frame->stackRoot == NULL) /* the frame is detached ... */
-__CPROVER_ensures(__CPROVER_old(frame->stackRoot)->topFrame == NULL) /* ... and its root has no top frame any more */
+__CPROVER_ensures(TOP_OF(__CPROVER_old(frame->stackRoot)) == NULL) /* ... and its root has no top frame any more */
 __CPROVER_ensures(WF && G.top_stores == __CPROVER_old(G.top_stores) + 1)
 /*@BODY deactivate*/
 
 #define PUSH_REQ(caller, callee) (IS_FRAME(caller) && IS_FRAME(callee) && (caller) != (callee) && WF && ACTIVE(caller) && (callee)->stackRoot == NULL)
 void pushAsyncStackFrameCallerCallee(struct AsyncStackFrame* callerFrame, struct AsyncStackFrame* calleeFrame)
-__CPROVER_requires(PUSH_REQ(callerFrame, calleeFrame))
+__CPROVER_requires(PUSH_REQ(callerFrame, calleeFrame)) /*P*/
 __CPROVER_assigns(calleeFrame->stackRoot, calleeFrame->parentFrame, callerFrame->stackRoot, callerFrame->stackRoot->topFrame, G_PUB)
 __CPROVER_ensures(calleeFrame->stackRoot == __CPROVER_old(callerFrame->stackRoot)) /* the callee takes over the caller's root ... */
 __CPROVER_ensures(__CPROVER_old(callerFrame->stackRoot)->topFrame == calleeFrame)   /* ... as its top frame, ... */
@@ -241,7 +251,7 @@ __CPROVER_ensures(G.top_stores == __CPROVER_old(G.top_stores) + 1 && G.pub_frame
 /* the parent of the frame being popped: none, or a live frame of the window that is currently detached */
 #define PARENT_OK(c) ((c)->parentFrame == NULL || (IS_FRAME((c)->parentFrame) && (c)->parentFrame != (c) && (c)->parentFrame->stackRoot == NULL))
 void popAsyncStackFrameCallee(struct AsyncStackFrame* calleeFrame)
-__CPROVER_requires(IS_FRAME(calleeFrame) && WF && ACTIVE(calleeFrame) && PARENT_OK(calleeFrame))
+__CPROVER_requires(IS_FRAME(calleeFrame) && WF && ACTIVE(calleeFrame) && PARENT_OK(calleeFrame)) /*P*/
 __CPROVER_assigns(calleeFrame->stackRoot, calleeFrame->stackRoot->topFrame, G_PUB; calleeFrame->parentFrame != NULL: calleeFrame->parentFrame->stackRoot)
 __CPROVER_ensures(calleeFrame->stackRoot == NULL) /* the callee is detached */
 __CPROVER_ensures(__CPROVER_old(calleeFrame->stackRoot)->topFrame == calleeFrame->parentFrame) /* the caller (or nothing) is the top frame again */
@@ -263,33 +273,33 @@ __CPROVER_ensures(WF && ACTIVE(callerFrame))
 /* ---------------- ScopedAsyncStackRoot ---------------- */
 #define FRESH_ROOT(r) ((r).topFrame == TOPFRAME_INIT && (r).nextRoot == NEXTROOT_INIT)
 void ScopedAsyncStackRoot_ctor(struct ScopedAsyncStackRoot* self, frame_ptr framePointer, instruction_ptr returnAddress)
-__CPROVER_requires(self == &SR && FRESH_ROOT(self->root_) && WF && CUR.value != &self->root_)
+__CPROVER_requires(self == &SR && FRESH_ROOT(self->root_) && CUR.value != &self->root_) /*P*/ /* WF is outside the footprint (topFrame / stackRoot links): kept by the frame condition */
 __CPROVER_assigns(self->root_.nextRoot, self->root_.stackFramePtr, self->root_.returnAddress, CUR.value, G.cur_stores)
 __CPROVER_ensures(CUR.value == &self->root_)                           /* the new root is the thread's current root */
 __CPROVER_ensures(self->root_.nextRoot == __CPROVER_old(CUR.value))    /* and remembers the previous one */
 __CPROVER_ensures(self->root_.stackFramePtr == framePointer && self->root_.returnAddress == returnAddress && self->root_.topFrame == NULL)
-__CPROVER_ensures(WF && G.cur_stores == __CPROVER_old(G.cur_stores) + 1)
+__CPROVER_ensures(G.cur_stores == __CPROVER_old(G.cur_stores) + 1)
 /*@BODY scoped_ctor*/
 
 /* the two asserts of the destructor are its precondition: still the current root, and every frame activated on it was deactivated */
 #define DTOR_REQ(self) (CUR.value == &(self)->root_ && (self)->root_.topFrame == NULL)
 void ScopedAsyncStackRoot_dtor(struct ScopedAsyncStackRoot* self)
-__CPROVER_requires(self == &SR && WF && DTOR_REQ(self))
+__CPROVER_requires(self == &SR && DTOR_REQ(self)) /*P*/
 __CPROVER_assigns(CUR.value, G.cur_stores)
 __CPROVER_ensures(CUR.value == self->root_.nextRoot) /* the previous root is the current root again (root_ itself untouched: frame condition) */
-__CPROVER_ensures(WF && G.cur_stores == __CPROVER_old(G.cur_stores) + 1)
+__CPROVER_ensures(G.cur_stores == __CPROVER_old(G.cur_stores) + 1)
 /*@BODY scoped_dtor*/
 
 void ScopedAsyncStackRoot_activateFrame(struct ScopedAsyncStackRoot* self, struct AsyncStackFrame* frame)
-__CPROVER_requires(self == &SR && ACTIVATE_REQ(&self->root_, frame))
+__CPROVER_requires(self == &SR && ACTIVATE_REQ(&self->root_, frame)) /*P*/
 __CPROVER_assigns(self->root_.topFrame, frame->stackRoot, G_PUB)
 __CPROVER_ensures(self->root_.topFrame == frame && frame->stackRoot == &self->root_)
-__CPROVER_ensures(WF && ACTIVE(frame))
+__CPROVER_ensures(WF && ACTIVE(frame) && G.top_stores == __CPROVER_old(G.top_stores) + 1)
 /*@BODY scoped_activateFrame*/
 
 /* possiblyDeadFrame may be a dangling pointer: it is compared, never dereferenced (no assigns target, pointer checks) */
 void ScopedAsyncStackRoot_ensureFrameDeactivated(struct ScopedAsyncStackRoot* self, struct AsyncStackFrame* possiblyDeadFrame)
-__CPROVER_requires(self == &SR && CUR.value == &self->root_ && (self->root_.topFrame == NULL || self->root_.topFrame == possiblyDeadFrame))
+__CPROVER_requires(self == &SR && CUR.value == &self->root_ && (self->root_.topFrame == NULL || self->root_.topFrame == possiblyDeadFrame)) /*P*/
 __CPROVER_assigns(self->root_.topFrame, G_PUB)
 __CPROVER_ensures(self->root_.topFrame == NULL) /* the root has no top frame: the destructor's precondition */
 __CPROVER_ensures(DTOR_REQ(self))
@@ -336,6 +346,243 @@ __CPROVER_ensures(initialFrame == NULL ==> __CPROVER_return_value == 0)
 __CPROVER_ensures((WSELF.parentFrame == &WSELF && initialFrame != NULL) ==> __CPROVER_return_value == maxAddresses) /* a chain longer than the buffer fills it */
 /*@BODY trace_lc*/
 
+/* =====================================================================================================================
+ * CALL SITES of the primitives (plain function bodies); the primitives are represented by their contracts (replace=[...]).
+ * Window roles: F0 = the frame of the coroutine / operation, F1 = the copy frame inside a _root_and_frame, SR (R1) = the
+ * ScopedAsyncStackRoot of a local RAII object (a local RAII object is laid out on these window objects), R0 = the
+ * enclosing root.
+ * ===================================================================================================================== */
+struct awaitable_wrapper { int awaiter_; int coro_; };          /* _awaitable_wrapper<Awaitable>::type */
+struct sender_awaitable { int op_; };                            /* _awaitable<Promise, Sender, With>::type */
+struct resumer_awaiter { int h; };                               /* _coro_resumer<Promise>::type::promise_type::awaiter */
+struct rcvr_wrapper { int op_; };                                /* _inject::_rcvr_wrapper<Receiver>::type */
+struct op_wrapper { int op_; int receiver_; };                   /* _inject::_op_wrapper<Op, R>::type (its frame_ is F0) */
+struct _root_and_frame { int placeholder; };                     /* members laid out on F1 / SR */
+struct _root_and_frame_ref { int placeholder; };                 /* members laid out on RFR_FRAMEP / SR */
+struct initial_stack_root { struct AsyncStackFrame frame; };     /* members laid out on F0 / SR */
+static struct awaitable_wrapper AW;
+static struct sender_awaitable SAW;
+static struct resumer_awaiter RAW;
+static struct rcvr_wrapper RW;
+static struct op_wrapper OPW;
+static _Bool WithAsyncStackSupport;
+static _Bool VF_CFG_bool_overload;                             /* which await_suspend_impl overload: the wrapped await_suspend returns bool (may decline) / void or a handle */
+#define IMP_(a, b) (!(a) || (b))                              /* template parameter: both values verified */
+#define RF_FRAME F1
+#define RF_ROOT SR
+#define ISR_FRAME F0
+#define VF_OPW_FRAME(op) (&F0)
+static struct AsyncStackFrame* RFR_FRAMEP;                       /* _root_and_frame_ref::frame_ */
+static struct AsyncStackFrame* vf_rf_arg;                        /* constructor arguments of the local RAII objects */
+static struct AsyncStackFrame* vf_rfr_frame; static struct AsyncStackFrame* vf_rfr_parent;
+static frame_ptr vf_isr_fp; static instruction_ptr vf_isr_ip;
+enum { SIG_value, SIG_error, SIG_done };
+/* the same facts as ACTIVE(), stated on the concrete window objects only: after a replaced contract has havocked a link,
+ * the link is compared, never dereferenced (SPEC_GUIDE performance pitfall 1: spurious failures otherwise) */
+#define ACTIVE_ON(f, r) ((f).stackRoot == (r) && ((r) == &R0 || (r) == &R1) && CUR.value == (r) && TOP_OF(r) == &(f))
+
+/* the frame F0 / the awaiter / the operation may be gone (resumed and finished elsewhere, destroyed by its receiver) */
+static void vf_cs_dies(void) {
+  struct AsyncStackFrame f; F0.parentFrame = f.parentFrame; F0.instructionPointer = f.instructionPointer;   /* stackRoot: kept (the window invariant stays meaningful); any later write is caught by the snapshot */
+  int c; AW.coro_ = c;
+  G.snap_f0 = F0; G.snap_coro = AW.coro_; G.cs_dead = 1;
+}
+#define CS_UNTOUCHED_IF_DEAD (!G.cs_dead || (FRAME_EQ(F0, G.snap_f0) && AW.coro_ == G.snap_coro))
+#define FRAME_EQ(a, b) ((a).parentFrame == (b).parentFrame && (a).instructionPointer == (b).instructionPointer && (a).stackRoot == (b).stackRoot)
+#define CS_ZERO (G.resumers_made == 0 && G.resumer_destroys == 0 && G.suspend_calls == 0 && !G.cs_dead && G.completions == 0 && G.starts == 0 && G.rf_ctor == 0 && G.rf_dtor == 0 && G.connects == 0 && G.runs == 0 && G.resumes == 0)
+
+/* ---- await_transform.hpp: _awaitable_wrapper::await_suspend_impl ---- */
+static int EV_make_resumer(struct awaitable_wrapper* self) {
+  VF_P(self == &AW && G.resumers_made == 0, "one resumer coroutine per suspension");
+  G.resumers_made++; G.resumer_id = 1 + (int)(VF_nondet_u8() & 0x7f);
+  return G.resumer_id;
+}
+/* the wrapped awaiter's await_suspend: may hand the resumer to another thread, which may resume the coroutine at once
+ * (activating its frame on ANOTHER root), run it to completion and destroy promise, frame and this awaiter */
+static _Bool vf_wrapped_await_suspend(struct awaitable_wrapper* self, int resumer, _Bool may_decline) {
+  VF_CANARY("wrapped await_suspend reachable");
+  VF_P(self == &AW && G.suspend_calls == 0, "the wrapped await_suspend is called once");
+  VF_P(resumer == G.resumer_id && AW.coro_ == resumer, "the resumer is saved in coro_ (for later destruction) before it is handed to the awaiter");
+  VF_P(F0.stackRoot == NULL && G.cs_root != NULL && TOP_OF(G.cs_root) == NULL, "the coroutine's frame is deactivated before the wrapped await_suspend runs (the resumer may activate it on another root at once)");
+  G.suspend_calls++;
+  G.suspended = may_decline ? VF_nondet_bool() : 1;
+  if (G.suspended) { if (VF_nondet_bool()) F0.stackRoot = OPQ_R;   /* re-activated on another thread's root */
+    vf_cs_dies(); }
+  return G.suspended;
+}
+static _Bool EV_await_suspend(struct awaitable_wrapper* self, int resumer) { return vf_wrapped_await_suspend(self, resumer, VF_CFG_bool_overload); }
+static void EV_resumer_destroy(struct awaitable_wrapper* self, int h) {
+  VF_P(self == &AW && !G.cs_dead, "the unneeded resumer is destroyed only when the coroutine was not suspended");
+  VF_P(h == G.resumer_id && G.resumer_destroys == 0 && AW.coro_ == 0, "the unneeded resumer is destroyed exactly once and coro_ is cleared (no second destroy in the destructor)");
+  G.resumer_destroys++;
+}
+#define AW_REQ (self == &AW && frame == &F0 && WF && ACTIVE(frame) && CS_ZERO && G.cs_root == F0.stackRoot)
+_Bool awaitable_wrapper_await_suspend_impl_bool(struct awaitable_wrapper* self, int h, struct AsyncStackFrame* frame)
+__CPROVER_requires(AW_REQ && VF_CFG_bool_overload)
+__CPROVER_assigns(AW, F0, R0.topFrame, R1.topFrame, G)
+__CPROVER_ensures(G.resumers_made == 1 && G.suspend_calls == 1 && __CPROVER_return_value == G.suspended)
+__CPROVER_ensures(__CPROVER_return_value ==> (G.top_stores == __CPROVER_old(G.top_stores) + 1 && G.resumer_destroys == 0 && CS_UNTOUCHED_IF_DEAD && G.cs_dead)) /* really suspended: deactivated once, nothing of frame / promise / awaiter touched afterwards */
+__CPROVER_ensures(!__CPROVER_return_value ==> ACTIVE_ON(F0, G.cs_root)) /* not suspended: the SAME frame is active again on the SAME root it was taken off ... */
+__CPROVER_ensures(!__CPROVER_return_value ==> WF)
+__CPROVER_ensures(!__CPROVER_return_value ==> G.top_stores == __CPROVER_old(G.top_stores) + 2) /* ... by exactly one re-activation */
+__CPROVER_ensures(!__CPROVER_return_value ==> (G.resumer_destroys == 1 && !G.cs_dead))
+__CPROVER_ensures(CUR.value == __CPROVER_old(CUR.value))
+/*@BODY aw_suspend_bool*/
+
+int awaitable_wrapper_await_suspend_impl_other(struct awaitable_wrapper* self, int h, struct AsyncStackFrame* frame)
+__CPROVER_requires(AW_REQ && !VF_CFG_bool_overload)
+__CPROVER_assigns(AW, F0, R0.topFrame, R1.topFrame, G)
+__CPROVER_ensures(G.resumers_made == 1 && G.suspend_calls == 1 && G.resumer_destroys == 0)
+__CPROVER_ensures(G.top_stores == __CPROVER_old(G.top_stores) + 1 && TOP_OF(G.cs_root) == NULL) /* deactivated once, never re-activated here */
+__CPROVER_ensures(G.cs_dead && CS_UNTOUCHED_IF_DEAD && CUR.value == __CPROVER_old(CUR.value))
+/*@BODY aw_suspend_other*/
+
+/* ---- await_transform.hpp: _awaitable<Promise, Sender>::await_suspend (a sender is awaited) ---- */
+static struct AsyncStackFrame* EV_promise_frame(void* self) { return G.arg_frame; }
+static void EV_start_awaited_op(struct sender_awaitable* self) {
+  VF_CANARY("start of the awaited operation reachable");
+  VF_P(self == &SAW && G.starts == 0, "the awaited operation is started once");
+  VF_P(IMP_(WithAsyncStackSupport && G.arg_frame != NULL, F0.stackRoot == NULL && TOP_OF(G.cs_root) == NULL), "the coroutine's frame is deactivated before the operation that may resume it elsewhere is started");
+  G.starts++;
+  vf_cs_dies();
+}
+void sender_awaitable_await_suspend(struct sender_awaitable* self, int handle)
+__CPROVER_requires(self == &SAW && CS_ZERO && WF && (G.arg_frame == NULL || (G.arg_frame == &F0 && ACTIVE(&F0) && G.cs_root == F0.stackRoot)))
+__CPROVER_assigns(AW, F0, R0.topFrame, R1.topFrame, G)
+__CPROVER_ensures(G.starts == 1 && CS_UNTOUCHED_IF_DEAD)
+__CPROVER_ensures(G.top_stores == __CPROVER_old(G.top_stores) + ((WithAsyncStackSupport && G.arg_frame != NULL) ? 1 : 0))
+/*@BODY sender_awaitable_suspend*/
+
+/* ---- await_transform.hpp: the resumer coroutine's awaiter: resumes the suspended coroutine on a NEW root ---- */
+#define VF_SR_CTOR(p) do { (void)(p); R1.topFrame = TOPFRAME_INIT; R1.nextRoot = NEXTROOT_INIT; ScopedAsyncStackRoot_ctor(&SR, VF_nondet_uptr(), VF_nondet_uptr()); G.ctor++; } while (0)
+#define VF_SR_DTOR(p) do { (void)(p); ScopedAsyncStackRoot_dtor(&SR); G.dtor++; } while (0)
+/* h.resume(): the coroutine runs until it suspends again (await_suspend_impl above: its frame is deactivated, and may be
+ * re-activated elsewhere and die) or finishes / is destroyed (frame dead, possibly still recorded as top frame) */
+static void EV_resume_awaiting(struct resumer_awaiter* self, struct AsyncStackFrame* frame) {
+  VF_CANARY("resume of the awaiting coroutine reachable");
+  VF_P(self == &RAW && G.resumes == 0, "the awaiting coroutine is resumed exactly once");
+  VF_P(frame == G.arg_frame, "the frame that is activated is the awaiting coroutine's own frame");
+  if (frame != NULL) {
+    VF_P(G.ctor == 1 && G.dtor == 0 && ACTIVE_ON(F0, &R1), "a coroutine with a frame is resumed with that frame active on a new root");
+    if (VF_nondet_bool()) { R1.topFrame = NULL; F0.stackRoot = NULL; }      /* suspended again after deactivating its frame */
+    if (VF_nondet_bool()) vf_cs_dies();                                     /* ... and gone (or: finished with the frame still recorded as top) */
+  } else {
+    VF_P(G.ctor == 0, "no root is created for a coroutine without a frame");
+  }
+  G.resumes++;
+}
+void resumer_awaiter_await_suspend(struct resumer_awaiter* self)
+__CPROVER_requires(self == &RAW && CS_ZERO && G.ctor == 0 && G.dtor == 0 && WF && CUR.value != &R1 && FRESH_ROOT(R1) && (G.arg_frame == NULL || (G.arg_frame == &F0 && F0.stackRoot == NULL)))
+__CPROVER_assigns(AW, F0, SR, CUR.value, G)
+__CPROVER_ensures(G.resumes == 1 && CUR.value == __CPROVER_old(CUR.value)) /* the thread's root is restored */
+__CPROVER_ensures(G.arg_frame != NULL ==> (G.ctor == 1 && G.dtor == 1 && R1.topFrame == NULL)) /* the new root ends without top frame, whatever became of the coroutine */
+__CPROVER_ensures(G.arg_frame == NULL ==> (G.ctor == 0 && G.dtor == 0))
+__CPROVER_ensures(CS_UNTOUCHED_IF_DEAD)                                      /* a possibly-dead frame is never touched */
+/*@BODY resumer_awaiter_suspend*/
+
+/* ---- inject_async_stack.hpp: _root_and_frame / _root_and_frame_ref (constructor / destructor bodies) ---- */
+void root_and_frame_ctor_body(struct AsyncStackFrame* frame)
+/*@BODY rf_ctor*/
+void root_and_frame_dtor_body(void)
+/*@BODY rf_dtor*/
+void root_and_frame_ref_ctor_body(struct AsyncStackFrame* parentFrame)
+/*@BODY rfr_ctor*/
+void root_and_frame_ref_dtor_body(void)
+/*@BODY rfr_dtor*/
+/* member construction / destruction order made explicit: frame_ (default member initialisers), root_ (ScopedAsyncStackRoot()),
+ * constructor body;  destructor body, ~root_, ~frame_ */
+#define VF_FRESH_SR() do { R1.topFrame = TOPFRAME_INIT; R1.nextRoot = NEXTROOT_INIT; } while (0)
+#define VF_RF_CTOR(p) do { (void)(p); F1.parentFrame = PARENTFRAME_INIT; F1.stackRoot = STACKROOT_INIT; F1.instructionPointer = 0; VF_FRESH_SR(); \
+    ScopedAsyncStackRoot_ctor(&SR, VF_nondet_uptr(), VF_nondet_uptr()); root_and_frame_ctor_body(vf_rf_arg); G.rf_ctor++; } while (0)
+#define VF_RF_DTOR(p) do { (void)(p); root_and_frame_dtor_body(); ScopedAsyncStackRoot_dtor(&SR); G.rf_dtor++; } while (0)
+#define VF_RFR_CTOR(p) do { (void)(p); { struct AsyncStackFrame* frame = vf_rfr_frame; RFR_FRAMEP = (/*@EXPR rfr_frame_init*/); } VF_FRESH_SR(); \
+    ScopedAsyncStackRoot_ctor(&SR, VF_nondet_uptr(), VF_nondet_uptr()); root_and_frame_ref_ctor_body(vf_rfr_parent); G.rf_ctor++; } while (0)
+#define VF_RFR_DTOR(p) do { (void)(p); root_and_frame_ref_dtor_body(); ScopedAsyncStackRoot_dtor(&SR); G.rf_dtor++; } while (0)
+
+/* get_async_stack_frame(receiver()): the downstream receiver's frame (F0) or none */
+static struct AsyncStackFrame* EV_get_async_stack_frame(struct rcvr_wrapper* self) {
+  G.arg_frame = VF_nondet_bool() ? &F0 : NULL;
+  if (G.arg_frame) { G.arg_parent = F0.parentFrame; G.arg_ip = F0.instructionPointer; }
+  return G.arg_frame;
+}
+/* unifex::set_value / set_error / set_done on the wrapped receiver: arbitrary downstream code, balanced on the current
+ * root (assumption); it may destroy the operation (and with it the receiver's frame F0) */
+static _Bool EV_complete(struct rcvr_wrapper* self, int sig) {
+  VF_CANARY("completion of the wrapped receiver reachable");
+  VF_P(self == &RW && G.completions == 0, "the wrapped receiver is completed exactly once");
+  VF_P(G.rf_ctor == 1 && G.rf_dtor == 0 && ACTIVE_ON(F1, &R1), "the wrapped receiver is completed with the copy frame active on a fresh root");
+  VF_P(G.arg_frame == NULL || (F1.parentFrame == G.arg_parent && F1.instructionPointer == G.arg_ip), "the copy frame carries the receiver frame's parent link and return address (the trace continues from leaf to root)");
+  VF_P(G.arg_frame != NULL || (F1.parentFrame == NULL), "without a receiver frame the copy frame is a chain end");
+  if (sig == SIG_value && VF_nondet_bool()) return 1;     /* set_value throws: nothing was delivered */
+  G.completions++; G.last_sig = sig;
+  vf_cs_dies();
+  return 0;
+}
+#define RCVW_REQ (self == &RW && CS_ZERO && WF && CUR.value != &R1 && FRESH_ROOT(R1) && F1.stackRoot == NULL && F0.stackRoot != &R1 && R0.topFrame != &F1)
+#define RCVW_ENS (G.completions == 1 && G.rf_ctor == 1 && G.rf_dtor == 1 && G.top_stores == G.cs_top0 + 2 && F1.stackRoot == NULL && R1.topFrame == NULL && CS_UNTOUCHED_IF_DEAD)
+void rcvr_wrapper_set_value(struct rcvr_wrapper* self)
+__CPROVER_requires(RCVW_REQ)
+__CPROVER_assigns(AW, F0, F1, SR, CUR.value, G, vf_rf_arg)
+__CPROVER_ensures(RCVW_ENS)                                   /* one completion, inside a balanced root scope + activate/deactivate pair of the COPY frame; the operation is never touched afterwards */
+__CPROVER_ensures(CUR.value == __CPROVER_old(CUR.value) && R0.topFrame == __CPROVER_old(R0.topFrame)) /* stack roots restored */
+__CPROVER_ensures(G.last_sig == SIG_value || G.last_sig == SIG_error)
+/*@BODY rcvw_set_value*/
+void rcvr_wrapper_set_error(struct rcvr_wrapper* self)
+__CPROVER_requires(RCVW_REQ)
+__CPROVER_assigns(AW, F0, F1, SR, CUR.value, G, vf_rf_arg)
+__CPROVER_ensures(RCVW_ENS && G.last_sig == SIG_error)
+__CPROVER_ensures(CUR.value == __CPROVER_old(CUR.value) && R0.topFrame == __CPROVER_old(R0.topFrame))
+/*@BODY rcvw_set_error*/
+void rcvr_wrapper_set_done(struct rcvr_wrapper* self)
+__CPROVER_requires(RCVW_REQ)
+__CPROVER_assigns(AW, F0, F1, SR, CUR.value, G, vf_rf_arg)
+__CPROVER_ensures(RCVW_ENS && G.last_sig == SIG_done)
+__CPROVER_ensures(CUR.value == __CPROVER_old(CUR.value) && R0.topFrame == __CPROVER_old(R0.topFrame))
+/*@BODY rcvw_set_done*/
+
+/* _op_wrapper::start */
+static struct AsyncStackFrame* EV_get_parent_frame(struct op_wrapper* self) { G.arg_parent = VF_nondet_bool() ? OPQ_F : NULL; return G.arg_parent; }
+/* unifex::start(op_): may complete inline (the receiver may then destroy the whole wrapper, frame F0 included) or stay pending */
+static void EV_start_wrapped_op(struct op_wrapper* self) {
+  VF_CANARY("start of the wrapped operation reachable");
+  VF_P(self == &OPW && G.starts == 0, "the wrapped operation is started exactly once");
+  VF_P(G.rf_ctor == 1 && G.rf_dtor == 0 && ACTIVE_ON(F0, &R1), "the wrapped operation is started with the operation's frame active on a fresh root");
+  VF_P(G.arg_parent == NULL || F0.parentFrame == G.arg_parent, "the operation's frame is linked to the receiver's frame before it is activated");
+  G.starts++;
+  if (VF_nondet_bool()) vf_cs_dies();
+}
+void op_wrapper_start(struct op_wrapper* self)
+__CPROVER_requires(self == &OPW && CS_ZERO && WF && CUR.value != &R1 && FRESH_ROOT(R1) && F0.stackRoot == NULL && F1.stackRoot != &R1)
+__CPROVER_assigns(AW, F0, SR, CUR.value, G, RFR_FRAMEP, vf_rfr_frame, vf_rfr_parent)
+__CPROVER_ensures(G.starts == 1 && G.rf_ctor == 1 && G.rf_dtor == 1)
+__CPROVER_ensures(CUR.value == __CPROVER_old(CUR.value) && R1.topFrame == NULL && R0.topFrame == __CPROVER_old(R0.topFrame)) /* stack roots restored; the scoped root ends without top frame */
+__CPROVER_ensures(CS_UNTOUCHED_IF_DEAD)                      /* an operation that completed (and may be gone) is not touched */
+/*@BODY opw_start*/
+
+/* ---- sync_wait.hpp: initial_stack_root and the scope inside _impl that owns it ---- */
+void initial_stack_root_ctor_body(frame_ptr frameAddress, instruction_ptr returnAddress)
+/*@BODY isr_ctor*/
+void initial_stack_root_dtor_body(void)
+/*@BODY isr_dtor*/
+static void vf_isr_construct(frame_ptr frameAddress, instruction_ptr returnAddress) {
+  F0.parentFrame = PARENTFRAME_INIT; F0.stackRoot = STACKROOT_INIT; F0.instructionPointer = 0; VF_FRESH_SR();
+  ScopedAsyncStackRoot_ctor(&SR, /*@EXPR isr_root_init*/);
+  initial_stack_root_ctor_body(frameAddress, returnAddress);
+}
+#define VF_ISR_CTOR(p) do { (void)(p); vf_isr_construct(vf_isr_fp, vf_isr_ip); G.rf_ctor++; } while (0)
+#define VF_ISR_DTOR(p) do { (void)(p); initial_stack_root_dtor_body(); ScopedAsyncStackRoot_dtor(&SR); G.rf_dtor++; } while (0)
+#define SW_INSIDE (G.rf_ctor == 1 && G.rf_dtor == 0 && ACTIVE_ON(F0, &R1))
+static _Bool EV_sw_connect(struct AsyncStackFrame* f) { VF_P(SW_INSIDE && G.connects == 0, "the operation is connected inside the root scope, with sync_wait's frame active"); if (VF_nondet_bool()) return 1; G.connects++; return 0; }
+static void EV_sw_start(void) { VF_CANARY("sync_wait start reachable"); VF_P(SW_INSIDE && G.connects == 1 && G.starts == 0, "the operation is started inside the root scope, with sync_wait's frame active"); G.starts++; }
+static void EV_sw_run(void) { VF_P(SW_INSIDE && G.starts == 1 && G.runs == 0, "the event loop runs inside the root scope, with sync_wait's frame active"); VF_P(R1.returnAddress == vf_isr_ip && R1.stackFramePtr == vf_isr_fp && F0.instructionPointer == vf_isr_ip, "root and frame carry sync_wait's caller context"); G.runs++; }
+void sync_wait_impl_scope(frame_ptr frameAddress, instruction_ptr returnAddress)
+__CPROVER_requires(CS_ZERO && WF && CUR.value != &R1 && FRESH_ROOT(R1) && F0.stackRoot == NULL && F1.stackRoot != &R1 && R0.topFrame != &F0)
+__CPROVER_assigns(F0, SR, CUR.value, G, vf_isr_fp, vf_isr_ip)
+__CPROVER_ensures(G.rf_ctor == 1 && G.rf_dtor == 1 && G.top_stores == G.cs_top0 + 2) /* one activation, one deactivation, also when connect() throws */
+__CPROVER_ensures(CUR.value == __CPROVER_old(CUR.value) && F0.stackRoot == NULL && R1.topFrame == NULL && R0.topFrame == __CPROVER_old(R0.topFrame)) /* the frame is deactivated and the roots are restored when sync_wait's scope ends */
+__CPROVER_ensures(G.connects == 1 ==> (G.starts == 1 && G.runs == 1))
+/*@BODY sw_scope*/
+
 /* ---------------- harnesses ---------------- */
 static struct AsyncStackFrame* any_frame(void) { int k = VF_nondet_int(); return k == 0 ? NULL : k == 1 ? &F0 : k == 2 ? &F1 : OPQ_F; }
 static struct AsyncStackRoot* any_root(void) { int k = VF_nondet_int(); return k == 0 ? NULL : k == 1 ? &R0 : k == 2 ? &R1 : OPQ_R; }
@@ -350,6 +597,8 @@ static void window_any(void) {
   CUR.value = any_root();
   G.top_stores = VF_nondet_u32() & 0xffff; G.cur_stores = VF_nondet_u32() & 0xffff; G.pub_root = NULL; G.pub_frame = NULL; G.pub_parent = NULL;
   G.local_root = NULL; G.local_prev = NULL; G.ctor = 0; G.dtor = 0; G.resumes = 0;
+  G.cs_root = NULL; G.resumer_id = 0; G.resumers_made = 0; G.resumer_destroys = 0; G.suspend_calls = 0; G.suspended = 0; G.cs_dead = 0; G.snap_coro = 0;
+  G.completions = 0; G.starts = 0; G.rf_ctor = 0; G.rf_dtor = 0; G.connects = 0; G.runs = 0; G.last_sig = -1; G.arg_frame = NULL; G.arg_parent = NULL; G.arg_ip = 0;
 }
 static void fresh_scoped(void) { R1.topFrame = TOPFRAME_INIT; R1.nextRoot = NEXTROOT_INIT; R1.stackFramePtr = VF_nondet_uptr(); R1.returnAddress = VF_nondet_uptr(); }
 
@@ -538,4 +787,26 @@ void lemma_async_stack_init(void) {
   F0.stackRoot = STACKROOT_INIT; F1.stackRoot = STACKROOT_INIT; R0.topFrame = TOPFRAME_INIT; R1.topFrame = TOPFRAME_INIT;
   VF_P(WF, "lemma: the initial state is well-formed");
   VF_CANARY("lemma_async_stack_init reachable");
+}
+
+/* ---------------- call-site harnesses ---------------- */
+static void cs_init(void) { window_any(); G.cs_top0 = G.top_stores; WithAsyncStackSupport = VF_nondet_bool(); }
+void h_aw_suspend_bool(void) { cs_init(); VF_CFG_bool_overload = 1; G.cs_root = F0.stackRoot; _Bool r = awaitable_wrapper_await_suspend_impl_bool(&AW, 0, &F0); VF_CANARY("after await_suspend_impl (bool)");
+  if (r) { VF_CANARY("really suspended"); } else { VF_CANARY("not suspended: frame re-activated"); } if (G.cs_root == &R1) { VF_CANARY("on the scoped root"); } }
+void h_aw_suspend_other(void) { cs_init(); VF_CFG_bool_overload = 0; G.cs_root = F0.stackRoot; awaitable_wrapper_await_suspend_impl_other(&AW, 0, &F0); VF_CANARY("after await_suspend_impl (void / handle)"); }
+void h_sender_awaitable_suspend(void) { cs_init(); G.arg_frame = VF_nondet_bool() ? &F0 : NULL; G.cs_root = F0.stackRoot; sender_awaitable_await_suspend(&SAW, 0); VF_CANARY("after _awaitable::await_suspend");
+  if (G.top_stores != G.cs_top0) { VF_CANARY("frame deactivated before start"); } else { VF_CANARY("no frame / no async stack support"); } }
+void h_resumer_awaiter_suspend(void) { cs_init(); fresh_scoped(); G.arg_frame = VF_nondet_bool() ? &F0 : NULL; resumer_awaiter_await_suspend(&RAW); VF_CANARY("after resumer awaiter::await_suspend");
+  if (G.cs_dead) { VF_CANARY("resumed coroutine can be gone"); } if (G.arg_frame && !G.cs_dead && F0.stackRoot == NULL) { VF_CANARY("resumed coroutine suspended again"); } }
+void h_rcvw_set_value(void) { cs_init(); fresh_scoped(); rcvr_wrapper_set_value(&RW); VF_CANARY("after _rcvr_wrapper::set_value"); if (G.last_sig == SIG_error) { VF_CANARY("set_value threw: error delivered instead"); } }
+void h_rcvw_set_error(void) { cs_init(); fresh_scoped(); rcvr_wrapper_set_error(&RW); VF_CANARY("after _rcvr_wrapper::set_error"); }
+void h_rcvw_set_done(void) { cs_init(); fresh_scoped(); rcvr_wrapper_set_done(&RW); VF_CANARY("after _rcvr_wrapper::set_done"); if (G.arg_frame) { VF_CANARY("receiver with a frame"); } else { VF_CANARY("receiver without a frame"); } }
+void h_opw_start(void) { cs_init(); fresh_scoped(); op_wrapper_start(&OPW); VF_CANARY("after _op_wrapper::start"); if (G.cs_dead) { VF_CANARY("operation completed inline and may be gone"); } else { VF_CANARY("operation still pending"); } }
+void h_sw_scope(void) { cs_init(); fresh_scoped(); sync_wait_impl_scope(VF_nondet_uptr(), VF_nondet_uptr()); VF_CANARY("after sync_wait scope"); if (G.connects == 0) { VF_CANARY("connect can throw"); } }
+/* TEXTUAL check of a type-level fact (see assumptions): the noexcept-specification of _op_wrapper's constructor */
+void lemma_op_wrapper_noexcept(void) {
+  VF_P(/*@EXPR nx_has_nothrow_invocable*/ == 1, "lemma (textual): _op_wrapper's constructor is noexcept only if the wrapped connect is: its noexcept-specification names is_nothrow_invocable_v<Fn, S, receiver_t<R>>");
+  VF_P(/*@EXPR nx_has_nothrow_constructible*/ == 1, "lemma (textual): ... and is_nothrow_constructible_v<remove_cvref_t<R>, R> for the stored receiver");
+  VF_P(/*@EXPR nx_is_conjunction*/ == 1, "lemma (textual): the noexcept-specification is exactly the conjunction of the two (nothing weaker such as is_invocable_v, no disjunction)");
+  VF_CANARY("lemma_op_wrapper_noexcept reachable");
 }
